@@ -26,6 +26,14 @@ pub struct Case {
     pub xform: Option<([Fl; 3], u32, Fl, [Fl; 3])>,
     pub jit: bool,
     pub threads: u8,
+    /// the whole world-to-model matrix is multiplied by 1, 2, 1/2 or 4: the
+    /// same projective map with a homogeneous coordinate other than 1
+    #[serde(default)]
+    pub wscale: u8,
+}
+
+fn w2m_of(case: &Case) -> nalgebra::Matrix4<f32> {
+    world_to_model(&case.xform) * [1.0f32, 2.0, 0.5, 4.0][case.wscale as usize % 4]
 }
 
 pub struct P;
@@ -275,7 +283,7 @@ fn run<F: MathFunction + RenderHints + Clone>(case: &Case, cx: &mut Cx) -> Check
     let mut ctx = Context::new();
     let root = case.shape.build(&mut ctx);
     let shape = Shape::<F>::new(&ctx, root).unwrap();
-    let w2m = world_to_model(&case.xform);
+    let w2m = w2m_of(case);
     let pool = make_pool(case.threads);
     let settings = Settings {
         depth: case.depth,
@@ -488,7 +496,8 @@ fn run<F: MathFunction + RenderHints + Clone>(case: &Case, cx: &mut Cx) -> Check
     // escaped far from the surface invalidates the geometric checks below.
     // The CSG fields are 1-Lipschitz, so |f(v)| bounds the distance from below.
     let h = 2.0 / (1u32 << case.depth) as f64;
-    let scale = w2m.fixed_view::<3, 3>(0, 0).determinant().abs() as f64;
+    // volume factor of the map p -> (A p + t) / w (bottom row 0 0 0 w)
+    let scale = (w2m.fixed_view::<3, 3>(0, 0).determinant().abs() as f64) / (w2m[(3, 3)].abs() as f64).powi(3);
     let lin = scale.cbrt();
     let v_ref = grid.count() as f64 * (2.0 / n as f64).powi(3) * scale;
     let a_ref = grid.boundary_faces() as f64 * (2.0 / n as f64).powi(2) * lin * lin / 1.5;
@@ -616,13 +625,15 @@ impl Prop for P {
             ],
             any::<bool>(),
             prop_oneof![3 => Just(0u8), 2 => Just(1u8), 1 => 2u8..=5],
+            prop_oneof![3 => Just(0u8), 1 => 1u8..=3],
         )
-            .prop_map(|(shape, depth, xform, jit, threads)| Case {
+            .prop_map(|(shape, depth, xform, jit, threads, wscale)| Case {
                 shape,
                 depth,
                 xform,
                 jit,
                 threads,
+                wscale,
             })
             .boxed()
     }
@@ -680,6 +691,7 @@ impl Prop for P {
                         xform: None,
                         jit,
                         threads: 0,
+                        wscale: 0,
                     });
                 }
             }
@@ -692,6 +704,7 @@ impl Prop for P {
                 xform: None,
                 jit: false,
                 threads: 0,
+                wscale: depth % 4,
             });
         }
         out
@@ -743,7 +756,7 @@ pub fn debug(case: &Case) {
     let mut ctx = Context::new();
     let root = case.shape.build(&mut ctx);
     let shape = Shape::<VmFunction>::new(&ctx, root).unwrap();
-    let w2m = world_to_model(&case.xform);
+    let w2m = w2m_of(case);
     let settings = Settings {
         depth: case.depth,
         world_to_model: w2m,
